@@ -93,9 +93,14 @@ def template_level(report, rng, driver, n):
         # declared parameters whose value is the empty text, by default and by assignment
         t["Parameters"]["Suffix"] = {"Type": "String", "Default": rng.choice(["", "-x"])}
         t["Parameters"]["Blank"] = {"Type": "String", "Default": "d"}
-        extra = dict(extra, Blank=rng.choice(["", "given"]), Lst=rng.choice(["x,y,z", "one", "80,443"]), Hidden="s3cr3t-passed")
+        extra = dict(extra, Blank=rng.choice(["", "given"]), Lst=rng.choice(["x,y,z", "one", "80,443", 8080, 0]), Hidden="s3cr3t-passed")
         # list-typed and NoEcho parameters with a *passed* value: Ref sees the value the declaration makes of it
+        # (a single number, passed or as Default, is a list of one item)
         t["Parameters"]["Lst"] = {"Type": rng.choice(["CommaDelimitedList", "List<Number>"])}
+        if rng.random() < 0.3:
+            t["Parameters"]["Lst"]["Default"] = rng.choice([443, "443", "80,443"])
+            if rng.random() < 0.7:
+                extra.pop("Lst")
         t["Parameters"]["Hidden"] = {"Type": "String", "NoEcho": True}
         t["Resources"]["E"] = {"Type": "Custom::Uses", "Properties": {"A": {"Ref": "Suffix"}, "B": {"Fn::Sub": "n${Suffix}-${Blank}."}, "C": {"Fn::Join": ["", ["n", {"Ref": "Blank"}, {"Ref": "Suffix"}]]},
                                                                       "D": {"Fn::ImportValue": {"Fn::Sub": "${Blank}${Suffix}"}},
